@@ -392,4 +392,64 @@ theorem handle_quic_packet_eq_model (P : Params σ) (hcf : St σ → Out → Res
   rcases hh with hh | hh <;> rcases hs with hs | hs <;> cases hp : p.ptype <;>
     simp [hp, hh, hs, handle_frame_version_neg, errOf]
 
+/-! ### `handle_crypto_frame`, `handle_packet` up to its loop -/
+
+/-- `QuicTlsSession.update_session(frame)` as the model's parameter `tlsUpdate` -/
+def tlsUpdOf (P : Params σ) (t : σ) (o : Out) : Res σ Unit :=
+  match o.frame with
+  | .parsed (.crypto _ off len data) =>
+    match P.tlsUpdate t ⟨o.isServer, o.ptype, off, len, data⟩ with
+    | (t', none) => .ok () t'
+    | (t', some e) => .raised (errOf e) t'
+  | _ => .ok () t
+
+/-- `set_tls_decryptors(client_random, ciphersuite)`; called with both present only -/
+def stdOf (P : Params σ) (s : St σ) : Option Bytes → Option Bytes → Res (St σ) Unit
+  | some cr, some cs => resOf (setTlsDecryptors P s cr cs)
+  | _, _ => .ok () s
+
+theorem handle_crypto_frame_eq_model (P : Params σ) (s : St σ) (p : Pkt) (l off len : Nat) (data : Bytes) :
+    QS.handle_crypto_frame (tlsUpdOf P) P.tlsNewData P.tlsClientRandom P.tlsCiphersuite P.tlsClearNewData (stdOf P)
+        (mkOut p (.crypto l off len data)) s
+      = resOf (handleCrypto P s p (.crypto l off len data) (cryptoIn p off len data)) := by
+  unfold QS.handle_crypto_frame handleCrypto
+  simp only [tlsUpdOf, mkOut, cryptoIn]
+  cases P.tlsUpdate s.tls ⟨p.isServer, p.ptype, off, len, data⟩ with
+  | mk t e =>
+    cases e with
+    | some e => simp [resOf]
+    | none =>
+      simp only [tryR_ok, afterTls]
+      by_cases hn : P.tlsNewData t
+      · simp only [hn, if_true]
+        cases hcr : P.tlsClientRandom t with
+        | none => simp [resOf]
+        | some cr =>
+          cases hcs : P.tlsCiphersuite t with
+          | none => simp [resOf]
+          | some cs =>
+            simp only [Option.isNone_some, Bool.not_false, Bool.and_self, if_true, stdOf]
+            cases setTlsDecryptors P { s with tls := t } cr cs with
+            | mk s2 e2 => cases e2 <;> simp [resOf]
+      · simp [hn, resOf]
+
+/-- the translated `handle_crypto_frame` is a `handle_crypto_frame` the theorems above can be used with -/
+theorem crypto_agrees (P : Params σ) :
+    CryptoAgrees P (fun s o => QS.handle_crypto_frame (tlsUpdOf P) P.tlsNewData P.tlsClientRandom P.tlsCiphersuite P.tlsClearNewData
+      (stdOf P) o s) :=
+  fun s p l off len data => handle_crypto_frame_eq_model P s p l off len data
+
+/-- `handle_packet` before its loop: the version latch, the Initial decryptor when there is none yet, the direction
+    (`packet` is read by `packet_isserver` only: "does it come from the client's address") -/
+theorem handle_packet_pre_eq_model (P : Params σ) (s : St σ) (fromClient : Bool) (dcid : Bytes) (v : Version) :
+    QS.handle_packet_pre (fun st d _ => .ok () (setInitialDecryptor P st d)) (fun st (fc : Bool) d => .ok (packetIsServer st fc d) st)
+        fromClient dcid v s
+      = .ok (packetIsServer (handlePacketPre P s dcid v) fromClient dcid) (handlePacketPre P s dcid v) := by
+  unfold QS.handle_packet_pre handlePacketPre latchVersion
+  by_cases hv : s.version = .unknown
+  · simp only [hv, decide_true, if_true]
+    cases hd : s.decInitial <;> simp [hd]
+  · simp only [hv, decide_false, if_false, Bool.false_eq_true]
+    cases hd : s.decInitial <;> simp [hd]
+
 end TLX.Props.Translated.QSess
